@@ -85,11 +85,13 @@ def _mc(ctx):
             ctx.tlc_mc, "LoadBalance_Gen", contract_cfg("McConfigs", "McInstSets", g2, ["k0", "k1"], 3 if q else 5, 2),
             label="contract, 2 callers, %d selections" % (3 if q else 5), timeout=1500, workers=w)
         # implementation-shaped layer refines the contract
-        runs = [("RRConfigs", "McInstSets", g2 if q else g3, ["k0"], 4 if q else 5, 2 if q else 3, 2),
+        runs = [("RRConfigs", "McInstSets", g2, ["k0"], 4 if q else 5, 2 if q else 3, 2),
                 ("WRConfigs", "McInstSets", g2, ["k0"], 3 if q else 4, 2, 2),
                 ("HashConfigs", "McInstSets", g2, ["k0", "k1"], 3 if q else 4, 2, 2 if q else 3)]
+        if not q:
+            runs.append(("RRConfigs", "McInstSets", g3, ["k0"], 4, 2, 2))
         for (cf, ins, pr, ks, ms, mg, hr) in runs:
-            jobs[cf] = ex.submit(ctx.tlc_mc, "LoadBalanceImpl_MC", impl_cfg(cf, ins, pr, ks, ms, mg, hrange=hr),
+            jobs[cf + str(len(pr))] = ex.submit(ctx.tlc_mc, "LoadBalanceImpl_MC", impl_cfg(cf, ins, pr, ks, ms, mg, hrange=hr),
                                  label="implementation layer refines contract, %s" % cf, timeout=1500, workers=w)
         # negative controls: the model is able to find what the property forbids
         jobs["neg-rr"] = ex.submit(ctx.tlc_mc, "LoadBalanceImpl_MC", impl_cfg("RRConfigs", "McInstSets", g2, ["k0"], 3, 2, atomic=False),
@@ -98,8 +100,9 @@ def _mc(ctx):
                                       label="negative control: weightedRandom without the zero-total-weight guard", expect_ok=False,
                                       count=False, workers=2)
         res = {k: f.result() for k, f in jobs.items()}
-    for k in ("contract", "RRConfigs", "WRConfigs", "HashConfigs"):
-        ctx.log("%s: %d distinct states, %.0fs" % (k, res[k].distinct, res[k].wall))
+    for k in sorted(res):
+        if res[k].ok:
+            ctx.log("%s: %d distinct states, %.0fs" % (k, res[k].distinct, res[k].wall))
     r = res["neg-rr"]
     if r.violated not in ("RRFair", "Refines"):
         ctx.inconclusive("negative control (non-atomic round robin counter) was not rejected by TLC: %s" % r.error)
